@@ -1,7 +1,7 @@
 import ScryerModel.Proofs.Toplevel
 /-! # C29 — Toplevel answers are faithful and re-executable -/
 namespace Scryer
-namespace Toplevel
+open Toplevel
 
 /-- When every answer is requested (the keyboard only ever says `;`), the answers written are exactly the
 solutions the engine delivers, in order. -/
@@ -9,5 +9,4 @@ theorem C29_answers_are_the_solutions {α ε : Type} (t : Trace α ε) :
     answersOf (transcript t []) = t.sols :=
   answersOf_run_nil t {}
 
-end Toplevel
 end Scryer
